@@ -22,6 +22,7 @@
 #include <ompl/base/spaces/EmptyStateSpace.h>
 #include <ompl/base/spaces/SpaceTimeStateSpace.h>
 #include <ompl/base/Constraint.h>
+#include <ompl/base/ConstrainedSpaceInformation.h>
 #include <ompl/base/spaces/constraint/ProjectedStateSpace.h>
 #include <ompl/base/spaces/constraint/AtlasStateSpace.h>
 #include <ompl/base/spaces/constraint/TangentBundleStateSpace.h>
@@ -44,8 +45,55 @@ struct SpaceH
 {
     ob::StateSpacePtr sp;
     ob::StateSpacePtr layout;
-    std::vector<ob::StateSpacePtr> keep;   // inner spaces referenced by raw pointer
+    std::vector<ob::StateSpacePtr> keep;   // inner spaces referenced by raw pointer (cforest), outermost last
+    std::vector<std::shared_ptr<void>> life; // SpaceInformation objects of constrained spaces (needed by setup())
 };
+
+// ops that change a space AFTER construction (histories):
+//   setup                                              sp->setup()
+//   setbounds <k> <i>*k <n> <lo>*n <hi>*n              setBounds on the R^n / time node at path i1..ik
+//   setweight <k> <i>*k <idx> <w>                      CompoundStateSpace::setSubspaceWeight(idx, w) on the node at the path
+//   setweightn <k> <i>*k <idx> <w>                     ... setSubspaceWeight(getSubspace(idx)->getName(), w)
+// path navigation: compound -> getSubspace(i); WrapperStateSpace (incl. constrained) -> 0 = getSpace();
+// CForest wrapper -> 0 = the wrapped space.
+static ob::StateSpace *navigate(const SpaceH &H, const std::vector<unsigned long long> &path)
+{
+    ob::StateSpace *cur = H.sp.get();
+    size_t cf = H.keep.size();
+    for (auto i : path)
+    {
+        if (dynamic_cast<ompl::base::CForestStateSpaceWrapper *>(cur))
+        {
+            if (i != 0 || cf == 0)
+                throw vp::ParseError("path");
+            cur = H.keep[--cf].get();
+        }
+        else if (auto w = dynamic_cast<ob::WrapperStateSpace *>(cur))
+        {
+            if (i != 0)
+                throw vp::ParseError("path");
+            cur = w->getSpace().get();
+        }
+        else if (auto c = dynamic_cast<ob::CompoundStateSpace *>(cur))
+        {
+            if (i >= c->getSubspaceCount())
+                throw vp::ParseError("path");
+            cur = c->getSubspace(i).get();
+        }
+        else
+            throw vp::ParseError("path");
+    }
+    return cur;
+}
+
+static std::vector<unsigned long long> needPath(const std::vector<std::string> &t, size_t &i)
+{
+    auto k = vp::needN(t, i);
+    std::vector<unsigned long long> p;
+    for (unsigned long long j = 0; j < k; ++j)
+        p.push_back(vp::needN(t, i));
+    return p;
+}
 
 // ||x||^2 = 1 in R^n (co-dimension 1)
 class UnitSphereConstraint : public ob::Constraint
@@ -86,11 +134,11 @@ static SpaceH parseSpaceExt(const std::vector<std::string> &t, size_t &i)
         {
             auto s = std::make_shared<ob::DubinsStateSpace>(rho, sym);
             s->setBounds(b);
-            return {s, s, {}};
+            return {s, s, {}, {}};
         }
         auto s = std::make_shared<ob::ReedsSheppStateSpace>(rho);
         s->setBounds(b);
-        return {s, s, {}};
+        return {s, s, {}, {}};
     }
     if (k == "owen" || k == "vana" || k == "vanaowen")
     {
@@ -106,23 +154,23 @@ static SpaceH parseSpaceExt(const std::vector<std::string> &t, size_t &i)
         {
             auto s = std::make_shared<ob::OwenStateSpace>(rho, pitch);
             s->setBounds(b);
-            return {s, s, {}};
+            return {s, s, {}, {}};
         }
         if (k == "vana")
         {
             auto s = std::make_shared<ob::VanaStateSpace>(rho, pitch);
             s->setBounds(b);
-            return {s, s, {}};
+            return {s, s, {}, {}};
         }
         auto s = std::make_shared<ob::VanaOwenStateSpace>(rho, pitch);
         s->setBounds(b);
-        return {s, s, {}};
+        return {s, s, {}, {}};
     }
     if (k == "empty")
     {
         ++i;
         auto s = std::make_shared<ob::EmptyStateSpace>();
-        return {s, s, {}};
+        return {s, s, {}, {}};
     }
     if (k == "spacetime")
     {
@@ -144,7 +192,7 @@ static SpaceH parseSpaceExt(const std::vector<std::string> &t, size_t &i)
         auto s = std::make_shared<ob::SpaceTimeStateSpace>(inner, vmax, tw);
         if (m == "b")
             s->setTimeBounds(lo, hi);
-        return {s, s, {}};
+        return {s, s, {}, {}};
     }
     if (k == "projected" || k == "atlas" || k == "tangentbundle")
     {
@@ -160,19 +208,24 @@ static SpaceH parseSpaceExt(const std::vector<std::string> &t, size_t &i)
             s = std::make_shared<ob::AtlasStateSpace>(amb, con);
         else
             s = std::make_shared<ob::TangentBundleStateSpace>(amb, con);
-        return {s, s, {}};
+        SpaceH out{s, s, {}, {}};
+        if (k == "tangentbundle")
+            out.life.push_back(std::make_shared<ob::TangentBundleSpaceInformation>(s));
+        else
+            out.life.push_back(std::make_shared<ob::ConstrainedSpaceInformation>(s));
+        return out;
     }
     if (k == "cforest")
     {
         ++i;
         SpaceH in = parseSpaceExt(t, i);
         auto s = std::make_shared<ob::CForestStateSpaceWrapper>(nullptr, in.sp.get());
-        SpaceH out{s, in.layout, in.keep};
+        SpaceH out{s, in.layout, in.keep, in.life};
         out.keep.push_back(in.sp);
         return out;
     }
     auto s = vp::parseSpace(t, i);
-    return {s, s, {}};
+    return {s, s, {}, {}};
 }
 
 struct Scoped
@@ -259,6 +312,60 @@ int main()
                 if (i != t.size())
                     throw vp::ParseError("trailing");
                 std::cout << "in " << (sp->satisfiesBounds(a.s) ? 1 : 0) << "\n";
+            }
+            else if (op == "setup" && t.size() == 1)
+            {
+                sp->setup();
+                std::cout << "ok\n";
+            }
+            else if (op == "setbounds")
+            {
+                size_t i = 1;
+                auto path = needPath(t, i);
+                unsigned n = vp::needN(t, i);
+                std::vector<double> lo(n), hi(n);
+                for (auto &x : lo)
+                    x = vp::needF(t, i);
+                for (auto &x : hi)
+                    x = vp::needF(t, i);
+                if (i != t.size())
+                    throw vp::ParseError("trailing");
+                ob::StateSpace *node = navigate(H, path);
+                if (auto r = dynamic_cast<ob::RealVectorStateSpace *>(node))
+                {
+                    if (r->getDimension() != n)
+                        throw vp::ParseError("dim");
+                    ob::RealVectorBounds b(n);
+                    b.low = lo;
+                    b.high = hi;
+                    r->setBounds(b);
+                }
+                else if (auto tm = dynamic_cast<ob::TimeStateSpace *>(node))
+                {
+                    if (n != 1)
+                        throw vp::ParseError("dim");
+                    tm->setBounds(lo[0], hi[0]);
+                }
+                else
+                    throw vp::ParseError("setbounds on a space without bounds");
+                std::cout << "ok\n";
+            }
+            else if (op == "setweight" || op == "setweightn")
+            {
+                size_t i = 1;
+                auto path = needPath(t, i);
+                unsigned idx = vp::needN(t, i);
+                double w = vp::needF(t, i);
+                if (i != t.size())
+                    throw vp::ParseError("trailing");
+                auto c = dynamic_cast<ob::CompoundStateSpace *>(navigate(H, path));
+                if (!c || dynamic_cast<ob::WrapperStateSpace *>(c) || idx >= c->getSubspaceCount())
+                    throw vp::ParseError("setweight");
+                if (op == "setweight")
+                    c->setSubspaceWeight(idx, w);
+                else
+                    c->setSubspaceWeight(c->getSubspace(idx)->getName(), w);
+                std::cout << "ok\n";
             }
             else if (op == "extent" && t.size() == 1)
                 std::cout << "ext " << vp::bits(sp->getMaximumExtent()) << "\n";
